@@ -22,7 +22,7 @@ BIG_TP = 2419200  # 14 days in ticks
 
 # property -> (what must have been exercised for the run to count, i.e. vacuity floor)
 # each floor is (description, predicate over coverage counter)
-PROPS = ["C01", "C02", "C03", "C04", "C05", "C06", "C08", "C09", "C10", "C11", "C12", "C14", "C21"]
+PROPS = ["C01", "C02", "C03", "C04", "C05", "C06", "C08", "C09", "C10", "C11", "C12", "C14", "C21", "C44", "C45"]
 
 MC_PROPS = ["AckWriteOnce", "ClosedStaysClosed", "SeqMonotone", "ClosedNoFlow"]
 
@@ -30,11 +30,11 @@ MC_PROPS = ["AckWriteOnce", "ClosedStaysClosed", "SeqMonotone", "ClosedNoFlow"]
 def mc_constants(kind, tier):
     if tier == "quick":
         c = dict(KIND=kind, TP=1000, MaxH=4, MaxT=8, MaxSeq=1, DATA={"ok"}, SENDERS={"A"}, DTS={1}, FREEZE=False,
-                 TOH_OFFS={3}, TOT_OFFS={5}, TOS_OFFS={2, 3})
+                 TOH_OFFS={3}, TOT_OFFS={5}, TOS_OFFS={2, 3}, GENESIS=False)
     else:
         c = dict(KIND=kind, TP=1000, MaxH=5, MaxT=9 if kind != "V2" else 11, MaxSeq=1 if kind != "V2" else 2,
                  DATA={"ok"} if kind != "V2" else {"ok", "async"}, SENDERS={"A"}, DTS={1}, FREEZE=False,
-                 TOH_OFFS={3}, TOT_OFFS={5}, TOS_OFFS={2, 3})
+                 TOH_OFFS={3}, TOT_OFFS={5}, TOS_OFFS={2, 3}, GENESIS=False)
     return c
 
 
@@ -46,17 +46,17 @@ MC_WITNESS = {
 }
 
 
-def sched_constants(kind, tier, depth, outdir, tp=BIG_TP):
+def sched_constants(kind, tier, depth, outdir, tp=BIG_TP, genesis=False):
     return dict(KIND=kind, TP=tp, MaxH=3 * depth, MaxT=6 * depth, MaxSeq=3 if tier == "quick" else 4,
-                DATA={"ok", "fail", "async"}, SENDERS={"A", "B"}, DTS={1, 2}, FREEZE=True,
+                DATA={"ok", "fail", "async", "ok2", "fail2", "fail3", "async1", "ok1"}, SENDERS={"A", "B"}, DTS={1, 2}, FREEZE=True,
                 TOH_OFFS={3, 6, 12}, TOT_OFFS={4, 9, 20}, TOS_OFFS={2, 4, 9},
-                Depth=depth, OutDir=outdir, HONEST_PCT=60, MACRO_PCT=50, EDGE_PCT=20)
+                Depth=depth, OutDir=outdir, HONEST_PCT=60, MACRO_PCT=50, EDGE_PCT=20, GENESIS=genesis)
 
 
 def sizes(tier):
     if tier == "quick":
-        return dict(per_kind=20, depth=36, shards=12)
-    return dict(per_kind=220, depth=60, shards=16)
+        return dict(per_kind=20, per_kind_g44=5, depth=36, shards=12)
+    return dict(per_kind=220, per_kind_g44=40, depth=60, shards=16)
 
 
 def run_mc(tier, result, errors):
@@ -87,19 +87,23 @@ def gen_schedules(tier, seed, workdir):
     d = vk.scratch_spec(SPEC_DIR)
     scheds = []
 
-    def one(kind):
-        outdir = os.path.join(workdir, "sched_" + kind)
+    def one(job):
+        kind, genesis = job
+        tag = kind + ("_g44" if genesis else "")
+        n = sz["per_kind_g44"] if genesis else sz["per_kind"]
+        outdir = os.path.join(workdir, "sched_" + tag)
         os.makedirs(outdir, exist_ok=True)
-        cfg = os.path.join(d, "Sched_%s.cfg" % kind)
-        vk.write_cfg(cfg, "Spec", sched_constants(kind, tier, sz["depth"], outdir))
-        vk.tlc_simulate(d, "Sched_Packet", cfg, sz["per_kind"], sz["depth"] + 1, seed * 7 + KINDS.index(kind), workers=1)
+        cfg = os.path.join(d, "Sched_%s.cfg" % tag)
+        vk.write_cfg(cfg, "Spec", sched_constants(kind, tier, sz["depth"], outdir, genesis=genesis))
+        vk.tlc_simulate(d, "Sched_Packet", cfg, n, sz["depth"] + 1, seed * 7 + KINDS.index(kind) + (100 if genesis else 0), workers=1)
         out = []
         for i, f in enumerate(sorted(glob.glob(os.path.join(outdir, "*.json")))):
             s = json.load(open(f))
-            s["id"] = "%s-%d-%d" % (kind, seed, i)
+            # G44 schedules contain genesis export/import steps; they are judged for C44 only (see attribute())
+            s["id"] = "%s%s-%d-%d" % ("G44-" if genesis else "", kind, seed, i)
             out.append(s)
-        return out[: sz["per_kind"]]
-    for lst in vk.pmap(one, KINDS, 3):
+        return out[:n]
+    for lst in vk.pmap(one, [(k, g) for k in KINDS for g in (False, True)], 3):
         scheds.extend(lst)
     shutil.rmtree(d, ignore_errors=True)
     if len(scheds) < 3:
@@ -107,9 +111,10 @@ def gen_schedules(tier, seed, workdir):
     return scheds
 
 
-def drive(binary, scheds, workdir, tag, nshards):
+def drive(binary, scheds, workdir, tag, nshards, env=None):
     """Execute schedules on the real code; returns list of trace lines (dicts) grouped by (kind, tp)."""
     shards = vk.shard(scheds, nshards)
+    env = env or {}
 
     def one(ix):
         sp = os.path.join(workdir, "%s_sched_%d.ndjson" % (tag, ix))
@@ -117,7 +122,7 @@ def drive(binary, scheds, workdir, tag, nshards):
         with open(sp, "w") as f:
             for s in shards[ix]:
                 f.write(json.dumps(s) + "\n")
-        rc, out = vk.run_driver(binary, "TestDrive", {"VERIF_SCHED": sp, "VERIF_TRACE": tp})
+        rc, out = vk.run_driver(binary, "TestDrive", dict({"VERIF_SCHED": sp, "VERIF_TRACE": tp, "VERIF_DET": "1"}, **env))
         if rc != 0:
             raise vk.Infra("driver failed (rc=%d):\n%s" % (rc, out[-3000:]))
         return tp
@@ -153,6 +158,57 @@ def validate(groups, workdir, tag):
     return fails, steps
 
 
+def attribute(fails, scheds):
+    """Schedules with genesis export/import steps (ids G44-*) decide C44 only: once the module state has been
+    re-imported, every divergence from the specification is a failure of the import to preserve protocol state."""
+    first = {}
+    for s in scheds:
+        if s["id"].startswith("G44-") or s["id"].startswith("KF-C44"):
+            idx = [i + 1 for i, a in enumerate(s["acts"]) if a["a"] == "ExportImport"]
+            first[s["id"]] = idx[0] if idx else 10 ** 9
+    out = []
+    for tr, step, prop, clause in fails:
+        if tr in first and prop not in ("X", "C44"):
+            if step >= first[tr]:
+                if prop == "CONF":
+                    out.append((tr, step, "C44", "after-import-diverges-from-spec:" + clause))
+                # property-scoped failures after an import are consequences of the import: reported under C44
+                else:
+                    out.append((tr, step, "C44", "after-import:%s:%s" % (prop, clause)))
+            elif prop != "CONF":
+                out.append((tr, step, prop, clause))
+            else:
+                out.append((tr, step, prop, clause))
+        else:
+            out.append((tr, step, prop, clause))
+    return out
+
+
+def determinism(binary, det_scheds, groups, workdir):
+    ids = {s["id"] for s in det_scheds}
+    groups2 = drive(binary, det_scheds, workdir, "det", min(8, len(det_scheds)), env={"GOMAXPROCS": "1"})
+    a_lines = sorted((json.loads(l) for ls in groups.values() for l in ls if json.loads(l)["tr"] in ids), key=lambda d: (d["tr"], d["i"]))
+    b_lines = sorted((json.loads(l) for ls in groups2.values() for l in ls), key=lambda d: (d["tr"], d["i"]))
+    if len(a_lines) != len(b_lines):
+        raise vk.Infra("determinism runs recorded different numbers of steps (%d vs %d)" % (len(a_lines), len(b_lines)))
+    fa, fb = os.path.join(workdir, "detA.ndjson"), os.path.join(workdir, "detB.ndjson")
+    for path, lines in ((fa, a_lines), (fb, b_lines)):
+        with open(path, "w") as f:
+            for d in lines:
+                d.pop("err", None)
+                if "det" not in d:
+                    d["det"] = {"apphash": {}, "genesis": {}, "queries": {}}
+                f.write(json.dumps(d) + "\n")
+    d = vk.scratch_spec(SPEC_DIR)
+    cfg = os.path.join(d, "Det.cfg")
+    vk.write_cfg(cfg, "TraceSpec", dict(FileA=fa, FileB=fb))
+    fl, consumed, out = vk.tlc_trace(d, "Trace_Determinism", cfg)
+    shutil.rmtree(d, ignore_errors=True)
+    if consumed != len(a_lines):
+        raise vk.Infra("determinism comparison consumed %d of %d lines" % (consumed, len(a_lines)))
+    return fl, len(a_lines)
+
+
 def coverage_of(groups):
     """(action, result) counts and per-property distinct nontrivial case signatures."""
     cov = collections.Counter()
@@ -165,6 +221,9 @@ def coverage_of(groups):
                 continue
             cov["%s:%s:%s" % (kind, a["a"], d["res"])] += 1
             pk = a.get("pkt") or {}
+            if a["a"] in ("RecvV1", "RecvV2"):
+                tags = sorted({("w" if x[-1:].isdigit() else "") + x.rstrip("0123456789") for x in pk.get("data", [])})
+                cov["%s:%s:%s:data=%s:n=%d" % (kind, a["a"], d["res"], "+".join(tags), len(pk.get("data", [])))] += 1
             sig = (kind, a["a"], d["res"], pk.get("route"), tuple(pk.get("data", [])), a.get("canon"),
                    tuple(a.get("ack", [])), tuple(a.get("data", [])))
             for p in props_of_action(a["a"]):
@@ -180,7 +239,7 @@ def props_of_action(name):
         "TimeoutOnClose": ["C03", "C04", "C12", "C14", "C21"],
         "SendV1": ["C08", "C14", "C21"], "SendV2": ["C08", "C21"],
         "WriteAckV1": ["C11", "C14"], "WriteAckV2": ["C11"],
-        "CloseInit": ["C12", "C21"], "CloseConfirm": ["C12", "C21"], "Update": ["C21"], "Freeze": ["C21"], "Block": [],
+        "ExportImport": ["C44"], "CloseInit": ["C12", "C21"], "CloseConfirm": ["C12", "C21"], "Update": ["C21"], "Freeze": ["C21"], "Block": [],
     }
     return m.get(name, [])
 
@@ -194,13 +253,48 @@ FLOORS = {
     "C05": ["RecvV1:ok", "RecvV1:err", "RecvV2:ok", "RecvV2:err"],
     "C06": ["AckV1:ok", "AckV1:err", "AckV2:ok", "AckV2:err"],
     "C08": ["SendV1:ok", "SendV1:err", "SendV2:ok", "SendV2:err", "UNORDERED:SendV2:ok"],
-    "C09": ["RecvV1:ok"],
-    "C10": ["RecvV2:ok"],
+    "C09": ["RecvV1:ok:data=wfail", "RecvV1:ok:data=wok", "RecvV1:ok:data=fail", "ORDERED:RecvV1:ok:data=wfail"],
+    "C10": ["RecvV2:ok:data=wfail+wok", "RecvV2:ok:data=wok:n=2", "RecvV2:ok:data=wfail:n=1", "RecvV2:err"],
     "C11": ["WriteAckV1:ok", "WriteAckV2:ok", "WriteAckV2:err"],
     "C12": ["CloseInit:ok"],
     "C14": ["ORDERED:TimeoutV1:ok"],
     "C21": ["Freeze:ok", "Update:ok", "Update:err"],
+    "C44": ["ORDERED:ExportImport:ok", "V2:ExportImport:ok"],
+    "C45": ["DeterminismCompare:steps"],
 }
+
+
+# canonical failing cases of the recorded findings (known_findings.json); executed on every run
+PROBES = {
+    "KF-C44-1": {"id": "KF-C44-1", "kind": "UNORDERED", "tp": BIG_TP, "acts": [
+        {"a": "SendV2", "c": "A", "dt": 1, "toT": 40, "data": ["ok"]},
+        {"a": "ExportImport", "c": "A", "dt": 1},
+        {"a": "SendV2", "c": "A", "dt": 1, "toT": 40, "data": ["ok"]}]},
+    "KF-C44-2": {"id": "KF-C44-2", "kind": "V2", "tp": BIG_TP, "opt": "sameids", "acts": [
+        {"a": "SendV2", "c": "A", "dt": 1, "toT": 40, "data": ["ok"]},
+        {"a": "ExportImport", "c": "A", "dt": 1}]},
+}
+
+
+def match_known(fail, sched, known):
+    """Is this monitor failure inside the input class of a recorded finding? Decided from the schedule's inputs."""
+    tr, step, prop, clause = fail
+    for k in known:
+        sig = k.get("signature", {})
+        if prop == "C44" and sig.get("class") == "export-import-with-channel-alias" and sched and sched.get("kind") == "UNORDERED":
+            return k
+    return None
+
+
+def probe_known(pid, known, res):
+    lines = []
+    for k in known:
+        pf = [f for f in res.get("probe_fails", []) if f[0] == k["id"] and f[2] == pid]
+        if pf:
+            lines.append("KNOWN-FINDING: property=%s %s [%s; monitor %s]" % (pid, k["what"], k["id"], pf[0][3]))
+        elif k["id"] in PROBES:
+            lines.append("NOTICE: recorded finding %s no longer reproduces (fixed?)" % k["id"])
+    return lines
 
 
 def run_family(tier, seed, binary=None):
@@ -214,6 +308,11 @@ def run_family(tier, seed, binary=None):
     if binary is None:
         binary = vk.build_harness("packet")
     scheds = gen_schedules(tier, seed, workdir)
+    # schedules inside the input class of a recorded finding are not part of the general exploration
+    open_classes = {k.get("signature", {}).get("class") for k in vk.known_findings() if k.get("status", "open") == "open"}
+    if "export-import-with-channel-alias" in open_classes:
+        scheds = [s for s in scheds if not (s["id"].startswith("G44-") and s["kind"] == "UNORDERED")]
+    scheds = scheds + [dict(p) for p in PROBES.values()]
     vk.log("generated %d schedules in %.1fs" % (len(scheds), time.time() - t0))
     groups = drive(binary, scheds, workdir, "main", sizes(tier)["shards"])
     vk.log("drove %d schedules (%.1fs)" % (len(scheds), time.time() - t0))
@@ -222,6 +321,15 @@ def run_family(tier, seed, binary=None):
     th.join()
     if errors:
         raise errors[0]
+    # C45: the same histories in a second, independently started set of processes (GOMAXPROCS=1)
+    nd = 12 if tier == "quick" else 80
+    det_scheds = [s for s in scheds if s["id"] not in PROBES][:nd]
+    dfails, dsteps = determinism(binary, det_scheds, groups, workdir)
+    fails.extend(dfails)
+    vk.log("determinism: %d steps compared, %d differences (%.1fs)" % (dsteps, len(dfails), time.time() - t0))
+    fails = attribute(fails, scheds)
+    probe_fails = [f for f in fails if f[0] in PROBES]
+    fails = [f for f in fails if f[0] not in PROBES]
     cov, sigs = coverage_of(groups)
     sanity = [f for f in fails if f[2] == "X"]
     if sanity:
@@ -237,8 +345,11 @@ def run_family(tier, seed, binary=None):
         sample = {"schedule_id": first, "kind": kind,
                   "trace_prefix": [slim(json.loads(l)) for l in lines[:8] if json.loads(l)["tr"] == first]}
         break
+    cov["ALL:DeterminismCompare:steps"] = dsteps
+    sigs["C45"] = len(det_scheds)
     result.update({"tier": tier, "seed": seed, "traces": len(scheds), "steps": steps, "fails": fails,
                    "coverage": dict(cov), "sigs": sigs, "failing_schedules": failing, "sample": sample,
+                   "probe_fails": probe_fails,
                    "wall": time.time() - t0})
     return result
 
